@@ -350,6 +350,50 @@ func (x *Exec) registerLib() {
 		}
 		return nil, false
 	}, mods: noMods}
+	// pure helpers of base/reflect and xreflect used by the compile functions: modelled as
+	// deterministic uninterpreted functions of their arguments (no effect on the heap)
+	pureUF := func(name string) {
+		x.lib[name] = &libFn{apply: func(f *Frame, st *State, ins ssa.Instruction, args []Value) (Value, bool) {
+			x.note("library spec: " + name + " is a pure function")
+			fn := x.curCallee
+			if fn == nil || fn.String() != name {
+				unsupported("library function %s called outside a call site", name)
+			}
+			var flat []*smt.Term
+			var tags []string
+			for i, a := range args {
+				for _, l := range x.toLeaves(a, fn.Params[i].Type()) {
+					flat = append(flat, l)
+					tags = append(tags, sortTag(l.S))
+				}
+			}
+			res := fn.Signature.Results()
+			var rs []Value
+			for i := 0; i < res.Len(); i++ {
+				ls := flatten(res.At(i).Type())
+				ts := make([]*smt.Term, len(ls))
+				for j, l := range ls {
+					ts[j] = B.UF(fmt.Sprintf("pure_%s_%d_%d_%s", sanitize(name), i, j, strings.Join(tags, "_")), l.Sort, flat...)
+				}
+				rs = append(rs, x.fromLeaves(res.At(i).Type(), &ts))
+			}
+			return resultValue(rs), true
+		}, mods: noMods}
+	}
+	for _, n := range []string{
+		"github.com/cosmos72/gomacro/base/reflect.IsCategory",
+		"github.com/cosmos72/gomacro/base/reflect.Category",
+		"github.com/cosmos72/gomacro/base/reflect.ValueType",
+		"github.com/cosmos72/gomacro/base/reflect.IsOptimizedKind",
+		"(github.com/cosmos72/gomacro/xreflect.Type).ReflectType",
+		"(github.com/cosmos72/gomacro/xreflect.Type).IdenticalTo",
+		"(github.com/cosmos72/gomacro/xreflect.Type).Comparable",
+		"(github.com/cosmos72/gomacro/xreflect.Type).Name",
+		"(github.com/cosmos72/gomacro/xreflect.Type).NumMethod",
+		"github.com/cosmos72/gomacro/xreflect.ZeroR",
+	} {
+		pureUF(n)
+	}
 	x.lib["(*github.com/cosmos72/gomacro/base/output.Stringer).Errorf"] = noret
 	x.lib["github.com/cosmos72/gomacro/base/output.Errorf"] = noret
 }
